@@ -23,6 +23,7 @@ import (
 //	stream  the bytes on the wire (rope): real encoder output of each value, inline lines verbatim
 //	lens    length of each message on the wire
 //	inline  per message: was it sent as an inline command
+//	sent    per message: the value that was given to the real encoder (null array for inline commands)
 //	dec     what the real decoder returned (model values, payloads run-length coded)
 //	err     how decoding ended ("EOF", ...)
 //	reads   (requested, returned) of every Read the real Reader issued (-1 = EOF)
@@ -33,6 +34,7 @@ type traceRec struct {
 	Stream []int      `json:"stream"`
 	Lens   []int      `json:"lens"`
 	Inline []bool     `json:"inline"`
+	Sent   []MV       `json:"sent"`
 	Dec    []MV       `json:"dec"`
 	Err    string     `json:"err"`
 	Reads  [][2]int   `json:"reads"`
@@ -50,10 +52,14 @@ var lineBytes = []byte{'+', '-', ':', '$', '*', ' ', '0', '1', 'a', 'Z', 0, 255,
 type gen struct {
 	rng  *rand.Rand
 	long bool // allow payloads around 512 / 8192
+	big  bool // mostly integers outside the itoa table (-128..32768), payloads longer than 32768 now and then
 }
 
 func (g *gen) payloadLen() int {
 	r := g.rng.Intn(100)
+	if g.big && r < 4 {
+		return 32769 + g.rng.Intn(9000)
+	}
 	if g.long {
 		switch {
 		case r < 45:
@@ -121,6 +127,14 @@ func (g *gen) value(depth int) redis.VerifValue {
 	case 1:
 		return redis.VerifValue{Type: '-', Text: g.payload(lineBytes)}
 	case 2:
+		if g.big {
+			// 6 to 19 digits, either sign: never in the table
+			i := 40000 + g.rng.Int63n(1<<uint(17+g.rng.Intn(46)))
+			if g.rng.Intn(2) == 0 {
+				i = -i
+			}
+			return redis.VerifValue{Type: ':', Int: i}
+		}
 		if g.rng.Intn(2) == 0 {
 			return redis.VerifValue{Type: ':', Int: interestingInts[g.rng.Intn(len(interestingInts))]}
 		}
@@ -208,19 +222,11 @@ func (g *gen) chunks(total int) []int {
 	return cutsToChunks(cuts, total)
 }
 
-func record(args []string) error {
-	fs := flag.NewFlagSet("c10-record", flag.ContinueOnError)
-	n := fs.Int("n", 300, "number of recorded runs")
-	nLong := fs.Int("long", 20, "how many of them may contain payloads around 512 / 8192 bytes")
-	out := fs.String("out", "", "trace.json")
-	if err := fs.Parse(args); err != nil {
-		return err
-	}
-	rng := rand.New(rand.NewSource(cli.Seed()))
-	recs := make([]traceRec, 0, *n)
-	for i := 0; i < *n; i++ {
-		g := &gen{rng: rng, long: i < *nLong}
-		rec := traceRec{Buf: allBufs[rng.Intn(len(allBufs))], Lens: []int{}, Inline: []bool{}, Dec: []MV{}, Trunc: []truncRec{}, Reads: [][2]int{}}
+// recordOne runs one seeded random exchange through the real encoder and decoder and describes it.
+func recordOne(g *gen) (traceRec, error) {
+	rng := g.rng
+	for {
+		rec := traceRec{Buf: allBufs[rng.Intn(len(allBufs))], Lens: []int{}, Inline: []bool{}, Sent: []MV{}, Dec: []MV{}, Trunc: []truncRec{}, Reads: [][2]int{}}
 		var stream []byte
 		nm := 1 + rng.Intn(4)
 		for m := 0; m < nm; m++ {
@@ -229,19 +235,20 @@ func record(args []string) error {
 				stream = append(stream, line...)
 				rec.Lens = append(rec.Lens, len(line))
 				rec.Inline = append(rec.Inline, true)
+				rec.Sent = append(rec.Sent, MV{T: "array", Null: true})
 				continue
 			}
 			v := g.value(0)
 			b, err := redis.VerifEncode(v, encBufs[rng.Intn(len(encBufs))])
 			if err != nil {
-				return fmt.Errorf("run %d: encode: %v", i, err)
+				return rec, fmt.Errorf("encode: %v", err)
 			}
 			stream = append(stream, b...)
 			rec.Lens = append(rec.Lens, len(b))
 			rec.Inline = append(rec.Inline, false)
+			rec.Sent = append(rec.Sent, fromReal(v))
 		}
 		if len(stream) < 2 {
-			i--
 			continue
 		}
 		rec.Chunks = g.chunks(len(stream))
@@ -276,6 +283,25 @@ func record(args []string) error {
 			}
 			tv, _, _ := decode(stream[:a], []int{a}, rec.Buf, false)
 			rec.Trunc = append(rec.Trunc, truncRec{At: a, N: len(tv)})
+		}
+		return rec, nil
+	}
+}
+
+func record(args []string) error {
+	fs := flag.NewFlagSet("c10-record", flag.ContinueOnError)
+	n := fs.Int("n", 300, "number of recorded runs")
+	nLong := fs.Int("long", 20, "how many of them may contain payloads around 512 / 8192 bytes")
+	out := fs.String("out", "", "trace.json")
+	if err := fs.Parse(args); err != nil {
+		return err
+	}
+	rng := rand.New(rand.NewSource(cli.Seed()))
+	recs := make([]traceRec, 0, *n)
+	for i := 0; i < *n; i++ {
+		rec, err := recordOne(&gen{rng: rng, long: i < *nLong})
+		if err != nil {
+			return fmt.Errorf("run %d: %v", i, err)
 		}
 		recs = append(recs, rec)
 	}
